@@ -22,7 +22,7 @@ fn base_bits<F: RF>(i: &Inp) -> u64 {
 
 /// ~200 inputs covering every path class of both formats (classification through the hook is used
 /// only to pick the alphabet, never for a verdict).
-pub fn base_alphabet(seed: u64) -> Vec<Inp> {
+pub fn base_alphabet(seed: u64, hard: Option<&str>) -> Vec<Inp> {
     let mut jobs: Vec<Job> = Vec::new();
     jobs.extend(fam::short(2, -30, 30, "S").into_iter().step_by(6));
     jobs.extend(fam::seam(-340, 320).into_iter().step_by(41));
@@ -59,8 +59,51 @@ pub fn base_alphabet(seed: u64) -> Vec<Inp> {
     out.push(Inp { int: b"9007199254740993".to_vec(), frac: b"0000000001".to_vec(), exp: 0 });
     out.push(Inp { int: vec![b'1'; 25], frac: vec![b'9'; 30], exp: -3 });
     out.truncate(260);
+    // GAPS: big integers with runs of zero limbs that reach the big-integer path with long multiplication
+    // (the only inputs whose partial sums are extended over never-written limbs)
+    if let Some(p) = hard {
+        let text = std::fs::read_to_string(p).unwrap_or_default();
+        let gaps: Vec<(i32, Vec<u8>)> = text
+            .lines()
+            .filter_map(|l| {
+                let mut it = l.split_whitespace();
+                if it.next()? != "str64" {
+                    return None;
+                }
+                Some((it.next()?.parse().ok()?, it.next()?.as_bytes().to_vec()))
+            })
+            .collect();
+        // the longest ones have the widest zero runs (limbs [B, 0 x 7, A] for k = 512)
+        let mut gaps = gaps;
+        gaps.sort_by(|a, b| b.1.len().cmp(&a.1.len()).then(a.cmp(b)));
+        for (e, d) in gaps.into_iter().take(12) {
+            out.push(Inp { int: d, frac: vec![], exp: e });
+        }
+    }
     out
 }
+
+/// the single longest GAPS input (for the slow monitors)
+fn base_alphabet_gaps_only(hard: Option<&str>) -> Vec<Inp> {
+    let Some(p) = hard else { return vec![] };
+    let text = std::fs::read_to_string(p).unwrap_or_default();
+    let mut best: Option<Inp> = None;
+    for l in text.lines() {
+        let mut it = l.split_whitespace();
+        if it.next() != Some("str64") {
+            continue;
+        }
+        if let (Some(e), Some(d)) = (it.next(), it.next()) {
+            if best.as_ref().map_or(true, |b| d.len() > b.int.len()) {
+                best = Some(Inp { int: d.as_bytes().to_vec(), frac: vec![], exp: e.parse().unwrap_or(135) });
+            }
+        }
+    }
+    best.into_iter().collect()
+}
+
+/// number of trailing alphabet entries that every history set includes
+const TAIL: usize = 17;
 
 // ---- iterator shapes ------------------------------------------------------------------------------
 
@@ -313,8 +356,11 @@ pub fn c16(a: &Args) -> (Stats, String) {
             mk("16777217", "0000000000001", 0),
             mk("1", "", 400),
         ]
+        .into_iter()
+        .chain(base_alphabet_gaps_only(a.hard.as_deref()))
+        .collect::<Vec<Inp>>()
     } else {
-        base_alphabet(a.seed)
+        base_alphabet(a.seed, a.hard.as_deref())
     };
     let base = std::sync::Arc::new(alphabet);
     let nb = base.len();
@@ -363,23 +409,30 @@ pub fn c16(a: &Args) -> (Stats, String) {
     // 3: histories: all ordered pairs over the first 40 (+ every path class), triples over 12; three paints
     let t = Timer::new();
     let np = nb;
-    let nt = if small { 0 } else if a.thorough { 40 } else { 16 };
+    let nt = if small { 0 } else if a.thorough { 45 } else { 21 };
     // pick indices spread over the alphabet, but always include the trailing hand-picked long-multiplication inputs
     let pick = |k: usize| -> Vec<usize> {
-        let mut v: Vec<usize> = (0..k.saturating_sub(5)).map(|i| i * (nb - 5) / k.max(1)).collect();
+        let tail = TAIL.min(nb);
+        let mut v: Vec<usize> = (0..k.saturating_sub(tail)).map(|i| i * (nb - tail) / k.max(1)).collect();
         if k > 0 {
-            v.extend(nb - 5..nb);
+            v.extend(nb - tail..nb);
         }
         v.sort();
         v.dedup();
         v
     };
-    let pidx = pick(np);
+    // slow monitors: pairs over the first six (short) inputs, and every input once on its own
+    let pidx = if small { (0..nb.min(6)).collect() } else { pick(np) };
     let tidx = pick(nt);
     let mut specs: Vec<Vec<usize>> = Vec::new();
     for &x in &pidx {
         for &y in &pidx {
             specs.push(vec![x, y]);
+        }
+    }
+    if small {
+        for x in 0..nb {
+            specs.push(vec![x]);
         }
     }
     for &x in &tidx {
